@@ -171,6 +171,8 @@ type pstate struct {
 	prefetchResult                string
 
 	wedged       bool // never returned on its own; released by the clean-up only
+	lateAtErr    bool // was inside the lookup→registration window while a same-key leader ran FinishErr
+	lateJoin     bool // left the subgraph follower window after the leader had finished
 	lateRegister bool // was inside the lookup→registration window while a same-key leader ran its follower check
 }
 
@@ -309,11 +311,25 @@ func (s *sched) followerInWindow(p *pstate) bool {
 
 // depart is called (locked) when p leaves a point, either passing through or being resumed.
 func (s *sched) depart(p *pstate, point string) {
-	if point == ptFinishOk {
+	switch point {
+	case ptFinishOk:
 		// the leader now deletes the map entry and checks HasFollowers
 		for _, q := range s.parts {
 			if q != p && q.ikey == p.ikey && q.parkedAt == ptBeforeAdd {
 				q.lateRegister = true
+			}
+		}
+	case ptFinishErr:
+		for _, q := range s.parts {
+			if q != p && q.ikey == p.ikey && q.parkedAt == ptBeforeAdd {
+				q.lateAtErr = true
+			}
+		}
+	case ptJoined:
+		// a subgraph follower that leaves the window after its leader has already published
+		for _, q := range s.parts {
+			if q != p && q.spec.Key == p.spec.Key && q.loadDone && q.finished {
+				p.lateJoin = true
 			}
 		}
 	}
